@@ -368,6 +368,7 @@ class ExprPolicy:
 
     def make_assign(self, g, uid, depth):
         op = g.make('AssignOp', uid + '.op', depth, ('AssignExpr', 'op'))
+        g.ctx.notes.setdefault('assignops', {})[uid] = op.variant
         left = g.make('AssignTarget', uid + '.left', depth, ('AssignExpr', 'left'))
         right = g.make('Box<Expr>', uid + '.right', depth, ('AssignExpr', 'right'))
         return Adt('AssignExpr', None, [g.make_span(uid + '.span', None), op, left, right], None, {'uid': uid})
@@ -466,7 +467,7 @@ class ExprGrammar(Grammar):
             m = re.match(r'^(.*)\.left$', uid)
             if vn == 'Pat' and m and ('e!' + m.group(1) + '.op') in ctx.vars:
                 ctx.add(ctx.vars['e!' + m.group(1) + '.op'] == 0)
-            elif vn == 'Pat' and m and ctx.decisions.get('enum:' + m.group(1) + '.op', 0) != 0:
+            elif vn == 'Pat' and m and isinstance(ctx.notes.get('assignops', {}).get(m.group(1)), int) and ctx.notes['assignops'][m.group(1)] != 0:
                 from interp import Infeasible
                 raise Infeasible('destructuring target with a compound assignment operator')
 
